@@ -102,6 +102,8 @@ func globalOf(v ssa.Value) string {
 			v = w.X
 		case *ssa.Convert:
 			v = w.X
+		case *ssa.MakeInterface:
+			v = w.X
 		case *ssa.Call:
 			// b2s(x) / s2b(x)
 			if f := w.Call.StaticCallee(); f != nil && (f.Name() == "b2s" || f.Name() == "s2b") && len(w.Call.Args) == 1 {
@@ -329,6 +331,17 @@ func constOfObj(pkg *types.Package, name string) (constant.Value, bool) {
 // defers a return reads its results back from allocs written just before
 // rundefers (*t0 = v; rundefers; t1 = *t0; return t1). It returns v.
 func unspill(v ssa.Value) ssa.Value {
+	for i := 0; i < 4; i++ {
+		w := unspill1(v)
+		if w == v {
+			return v
+		}
+		v = w
+	}
+	return v
+}
+
+func unspill1(v ssa.Value) ssa.Value {
 	u, ok := v.(*ssa.UnOp)
 	if !ok || u.Op != token.MUL {
 		return v
